@@ -87,7 +87,7 @@ func (x *Explorer) Explore() bool {
 		c := NewChooser(it.prefix)
 		res := x.Run(c)
 		if c.Diverge != "" {
-			panic("HARNESS: " + c.Diverge + " scenario=" + x.Scenario)
+			panic(fmt.Sprintf("HARNESS: %s scenario=%s prefix=%v", c.Diverge, x.Scenario, it.prefix))
 		}
 		countIt := !root || si == 0
 		if countIt {
